@@ -15,7 +15,7 @@
 #ifndef KWID
 #define KWID 0
 #endif
-// KWID: 0 INCLUDE record, 1 PATHS records, 2 arbitrary bytes as the FIRST (keyword) line, 3 DIMENS record (three integers), 4 TITLE line
+// KWID: 0 INCLUDE record, 1 PATHS records, 2 arbitrary bytes as the FIRST (keyword) line, 3 DIMENS record (three integers), 4 TITLE line, 5 PORO data array (doubles)
 #if KWID == 0
 #define PREFIX "INCLUDE\n"
 #define SUFFIX "\n"
@@ -28,9 +28,12 @@
 #elif KWID == 3
 #define PREFIX "DIMENS\n"
 #define SUFFIX "\n"
-#else
+#elif KWID == 4
 #define PREFIX "TITLE\n"
 #define SUFFIX "\nEND\n"
+#else
+#define PREFIX "PORO\n"
+#define SUFFIX " /\n"        /* a data array of floating point values */
 #endif
 extern "C" void h_parse_builtin(void) {
     std::string text = PREFIX;
@@ -39,14 +42,14 @@ extern "C" void h_parse_builtin(void) {
     text += SUFFIX;
     Opm::Parser parser(false);
     parser.addKeyword<Opm::ParserKeywords::INCLUDE>(); parser.addKeyword<Opm::ParserKeywords::PATHS>(); parser.addKeyword<Opm::ParserKeywords::DIMENS>(); parser.addKeyword<Opm::ParserKeywords::TITLE>();
-    parser.addKeyword<Opm::ParserKeywords::END>(); parser.addKeyword<Opm::ParserKeywords::ENDINC>();      // the real (generated) keyword definitions
+    parser.addKeyword<Opm::ParserKeywords::PORO>(); parser.addKeyword<Opm::ParserKeywords::END>(); parser.addKeyword<Opm::ParserKeywords::ENDINC>();      // the real (generated) keyword definitions
     Opm::ParseContext ctx; Opm::ErrorGuard errors;
     ctx.update(Opm::InputErrorAction::THROW_EXCEPTION);               // every recoverable error throws (the default context maps PARSE_MISSING_INCLUDE to EXIT1 = std::exit(1), a policy, not a crash)
     bool ok = false;
     try { auto deck = parser.parseString(text, ctx, errors); ok = true;
 #if KWID == 1
         CHECK(deck.size() == 0);                                      // PATHS only feeds the alias table, it never becomes a deck keyword (INCLUDE: no file exists, so no deck is ever returned)
-#elif KWID == 3 || KWID == 4
+#elif KWID == 3 || KWID == 4 || KWID == 5
         CHECK(deck.size() <= 1);
 #elif KWID == 2
         CHECK(deck.size() <= 2);
